@@ -7,6 +7,7 @@ import inspect
 import json
 import multiprocessing as mp
 import os
+import signal
 import sys
 import time
 import traceback
@@ -143,8 +144,17 @@ def _worker(task):
           "tags": {}, "samples": [], "distinct": set()}
     counter = [0]
 
+    def _alarm(signum, frame):
+        raise Inconclusive(f"one path ran longer than {PATH_TIMEOUT_S} s (loop that does not terminate on symbolic input?)")
+
+    signal.signal(signal.SIGALRM, _alarm)
+
     def fn(E):
-        return unit.body(E, cfg)
+        signal.setitimer(signal.ITIMER_REAL, PATH_TIMEOUT_S)
+        try:
+            return unit.body(E, cfg)
+        finally:
+            signal.setitimer(signal.ITIMER_REAL, 0)
 
     def on_path(outcome, E):
         counter[0] += 1
@@ -318,6 +328,10 @@ def run_property(modname, prop, tier, seed, nproc=None, budget_s=None):
             running = still
             if not progressed:
                 time.sleep(0.01)
+            if time.time() > deadline + 120 and running:      # watchdog: a worker is stuck well past the budget
+                crashes.append({"crash": f"{len(running)} task(s) still running 120 s after the budget ended; pool terminated", "cfg": None})
+                pool.terminate()
+                break
     # ---- aggregate
     tot = {"paths": 0, "inconclusive": 0, "nontrivial": 0, "discharged": 0, "q_unknown": 0, "queries": 0,
            "solver_s": 0.0, "unknowns": 0, "witness_ok": 0, "nonrepro": 0, "realisations": 0}
@@ -360,6 +374,7 @@ def run_property(modname, prop, tier, seed, nproc=None, budget_s=None):
 
 
 LEVELS = {"C09": "other", "C10": "other"}
+PATH_TIMEOUT_S = 60
 SLICE_S = 3.0      # a task that runs longer hands the rest of its subtree back to the pool
 
 
